@@ -301,6 +301,31 @@ PROPS['C06'] = {
                     'natively and completely', 'handleMap tables: checked natively and completely (constructors of the layers are not under contract)'],
 }
 
+PROPS['C10'] = {
+    'sidecars': ['contracts/C10_payload.py'],
+    'plugins': ['protomodel'],
+    'level': 'other',
+    'explanation': 'Discharged for all field values and all optional-field subsets, under the proto2 object model of pyvc/protomodel.py: for each of '
+                   'message key, image, contact, location, extended text, document, audio, video, sticker, sender-key distribution, protocol '
+                   '(revoke) and the whole Message - X_to_proto puts a field on the wire exactly when the sender set it, with the sender\'s value, and '
+                   'assigns to no name that is not a field; proto_to_X returns the wire value of every field (an unset one as None or as its '
+                   'default); the two compositions (scenarios executed against those contracts): every field the sender set comes back equal; a '
+                   'received payload re-serialises with every modelled field equal (proto2 value semantics).  The contracts are generated from the '
+                   'constructor signatures of the attribute classes and the protobuf descriptors (the vocabulary of the statement), not from the '
+                   'converter.  Bounded (labelled bounded): context info (quoted messages to depth 3, mentions), SerializeToString / '
+                   'ParseFromString, the real protobuf classes and generated values incl. empty strings and zero numbers.',
+    'native_checks': [{'name': 'c10_payload', 'role': 'stand-in', 'cmd': ['bounded/payload_check.py'],
+                       'bound': 'model-facts: complete (declared protobuf fields == real descriptors); sender side: per class none / all / each single '
+                                'optional field + 40 (quick) / all subsets up to 2^12 + 400 (thorough) random subsets, generated values, quoted messages '
+                                'to depth 3; receiver side: 600 / 12000 protobuf messages built from the descriptors over the modelled fields'}],
+    'assumptions': ['proto2 semantics of the generated classes as stated in pyvc/protomodel.py (fresh message has no field set; assignment sets; '
+                    'unset scalar reads its default; HasField; MergeFrom into an unset sub-message; assignment to a non-field raises) - the library\'s',
+                    'contextinfo_to_proto / proto_to_contextinfo are assumed pure and mutually inverse (bounded only)',
+                    'SerializeToString / ParseFromString are inverse on every field (protobuf library)',
+                    'required constructor parameters are not None (precondition); a document\'s own length equals its download descriptor\'s '
+                    '(one wire field); protocol messages are of type REVOKE (class invariant of ProtocolAttributes)'],
+}
+
 NOT_APPLICABLE = {
     'C11': 'quantifies over thread interleavings (2-4 sender threads through lock/queue operations); no verifier available here '
            'has a thread or permission model and sequential contracts cannot express "for every schedule" (DESIGN.md section 8)',
